@@ -503,10 +503,26 @@ class TokenizerModel:
         """`--` -> comment start; DOCTYPE (case-insensitive) -> doctype; `[CDATA[` when the current node is foreign;
         otherwise all consumed characters are ungot in reverse order and the bogus comment state is entered."""
         src = norm(m.node)
+
+        def arm_first_chars(target_state):
+            """the first characters (atoms) for which the top-level if-chain enters the arm that can switch to target_state"""
+            chain = next((s for s in body if isinstance(s, ast.If)), None)
+            interp = MiniInterp(self.ce, self.mod)
+            while isinstance(chain, ast.If):
+                if any(isinstance(x, ast.Assign) and norm(x) == "self.state = self.%s" % target_state for x in ast.walk(ast.Module(body=chain.body, type_ignores=[]))):
+                    # only the conjuncts that look at the character just read decide the arm's first character
+                    tests = chain.test.values if isinstance(chain.test, ast.BoolOp) and isinstance(chain.test.op, ast.And) else [chain.test]
+                    tests = [t for t in tests if "charStack" in norm(t)]
+                    try:
+                        return {a for a in ATOMS if isinstance(a, str) and all(interp.eval_guard(t, {"charStack": [a]}) for t in tests)}
+                    except AnalysisError:
+                        return None
+                chain = chain.orelse[0] if len(chain.orelse) == 1 else None
+            return None
         facts = {
             "reads-first": norm(body[0]) == "charStack = [self.stream.char()]",
-            "dash-dash": "if charStack[-1] == '-':" in src and "self.state = self.commentStartState" in src,
-            "doctype-first": "elif charStack[-1] in ('d', 'D'):" in src and "self.state = self.doctypeState" in src,
+            "dash-dash": arm_first_chars("commentStartState") == {"-"},
+            "doctype-first": arm_first_chars("doctypeState") == {"d", "D"},
             "cdata-guard": ("charStack[-1] == '[' and self.parser is not None and self.parser.tree.openElements and "
                             "(self.parser.tree.openElements[-1].namespace != self.parser.tree.defaultNamespace)") in src
                            and "self.state = self.cdataSectionState" in src,
